@@ -446,7 +446,7 @@ func main() {
 			}
 			runDrv(rec)
 			w.Put(rec)
-			if rec.Pan == "timeout" {
+			if rec.Pan != "" { // a hung or failed experiment costs seconds of watchdog: one is enough to report
 				w.Close()
 				os.Exit(0)
 			}
